@@ -25,7 +25,8 @@ from ..engine.report import AnalysisError, Run
 from ..engine.resolver import FuncInfo, Program, contains_await, walk_no_nested
 from ..engine.sympath import Effect, Path, SymUnsupported
 from ..engine.util import u
-from ._c14_util import HelperGraph, Walk, callback_target, effect_target, seg, splice
+from ._c14_util import (HelperGraph, Walk, callback_target, closure_reads, effect_target, rebound_after, seg,
+                        splice)
 
 MOD = "microgrid._power_distributing.power_distributing"
 ACTOR = f"{MOD}:PowerDistributingActor"
@@ -115,10 +116,12 @@ def bind_roles(prog: Program) -> tuple[str, str]:
     """(starter, handler): the two private methods of the actor the rules are about, bound by role.
 
     starter  the method that -- itself or through private helpers it calls -- creates a task around
-             `<manager>.distribute_power(...)`, attaches a done-callback and stores into
-             self._processing_tasks[...]; of several such methods the innermost one (the completion
-             handler and the request loop reach the same code *through* it).
-    handler  the method the starter's `add_done_callback(...)` argument ends up calling.
+             `<manager>.distribute_power(...)` and stores it into self._processing_tasks[...]; of
+             several such methods the innermost one (the completion handler and the request loop reach
+             the same code *through* it).  The done-callback is attached by the starter or, when it
+             hands the task back, by its callers: that is not part of the role.
+    handler  the method the `add_done_callback(...)` argument of the starter (or of a method that
+             calls the starter) ends up calling.
     The historical names decide only when the structure leaves a choice."""
     cls = prog.cls(ACTOR)
     feats: dict[str, set[str]] = {}
@@ -150,13 +153,13 @@ def bind_roles(prog: Program) -> tuple[str, str]:
                     work.append(c)
         return out
 
-    want = {"distribute_power", "create_task", "add_done_callback", "register"}
+    want = {"distribute_power", "create_task", "register"}
 
     def score(m: str) -> int:
         have = set().union(*(feats[x] for x in closure(m)))
         return len(have & want) if "distribute_power" in have else 0
 
-    # the methods that show most of the role (all four features on a tree where the property holds; on a
+    # the methods that show most of the role (all three features on a tree where the property holds; on a
     # defective tree the role is still bound, so that the defect is reported as such), innermost first
     pool = [m for m in cls.methods if m not in ("_run", "__init__") and score(m) > 0]
     best = max((score(m) for m in pool), default=0)
@@ -169,8 +172,13 @@ def bind_roles(prog: Program) -> tuple[str, str]:
     else:
         raise AnalysisError(f"{ACTOR}: {len(inner)} methods play the role of {STARTER_HINT} (create the distribution "
                             "task, attach its done-callback and register it as in flight)")
-    targets = {t for m in closure(starter) for cb, nested in cb_args.get(m, [])
-               for t in [callback_target(cb, nested, cls.methods, 0, cls.module.functions)] if t in cls.methods}
+    def targets_in(ms: Any) -> set[str]:
+        return {t for m in ms for cb, nested in cb_args.get(m, [])
+                for t in [callback_target(cb, nested, cls.methods, 0, cls.module.functions)] if t in cls.methods}
+
+    targets = targets_in(closure(starter))
+    if not targets:     # the starter hands the task back: its callers attach the callback
+        targets = targets_in(m for m in cls.methods if m != "__init__" and starter in closure(m))
     restart = {m for m in cls.methods if m not in ("__init__", starter) and starter in calls.get(m, ())
                and m not in closure("_run")}     # restarts requests, but is not part of the request loop
     if len(targets) == 1:
@@ -187,8 +195,104 @@ def bind_roles(prog: Program) -> tuple[str, str]:
     return starter, handler
 
 
+def _callback_ok(cb: ast.AST, nested: dict[str, ast.FunctionDef], handler: str, hp: list[str],
+                 key: str, req: str, where: str) -> bool:
+    """The callable `cb` (as the walker sees it: locals substituted, default arguments folded into the
+    body) calls <handler>(key, request, <the finished task>)."""
+    if isinstance(cb, ast.Lambda):
+        la = cb.args
+        if len(la.args) + len(la.posonlyargs) != 1 or la.vararg or la.kwarg or la.kwonlyargs:
+            return False
+        tpar = (la.posonlyargs + la.args)[0].arg
+        body: ast.AST | None = cb.body
+    elif isinstance(cb, ast.Name) and cb.id in nested:
+        d = nested[cb.id]
+        da = d.args
+        stmts = [s for s in d.body if not (isinstance(s, ast.Expr) and isinstance(s.value, ast.Constant))]
+        if len(da.args) + len(da.posonlyargs) != 1 or da.vararg or da.kwarg or da.kwonlyargs or len(stmts) != 1 \
+                or not isinstance(stmts[0], (ast.Expr, ast.Return)) or d.decorator_list:
+            return False
+        tpar = (da.posonlyargs + da.args)[0].arg
+        body = stmts[0].value
+    elif isinstance(cb, ast.Call) and u(cb.func).split(".")[-1] == "partial" and cb.args \
+            and u(cb.args[0]) == f"self.{handler}":
+        a = _bound(ast.Call(func=cb.args[0], args=cb.args[1:], keywords=cb.keywords), hp)
+        return a == {hp[0]: key, hp[1]: req}
+    elif isinstance(cb, (ast.Name, ast.Call)):
+        # a callable built somewhere the walker could not read (a multi-statement closure, an
+        # unknown factory): nothing can be said about it
+        raise AnalysisError(f"{where}: the done-callback `{u(cb)[:80]}` is not a callable the walker can read")
+    else:
+        return False
+    if body is None or not _is_self_call(body, handler):
+        return False
+    return _bound(body, hp) == {hp[0]: key, hp[1]: req, hp[2]: tpar}
+
+
+def _done_callbacks(p: Path) -> list[Effect]:
+    return p.calls(lambda c: isinstance(c.func, ast.Attribute) and c.func.attr == "add_done_callback")
+
+
+def _cb_arg(call: ast.AST) -> ast.AST | None:
+    assert isinstance(call, ast.Call)
+    if len(call.args) + len(call.keywords) != 1:
+        return None
+    return positional(call, ["fn"]).get("fn") or positional(call, ["callback"]).get("callback")
+
+
+def check_attach(fn: FuncInfo, w: Walk, paths: list[Path], ctx: "Ctx", prog: Program,
+                 bad: dict[str, list[tuple[Path, Any]]]) -> None:
+    """The callers' side of "every distribution task has exactly one completion callback, for its own
+    (group, request)".  When the starter hands the created task back without a callback (ctx.deferred),
+    every start in the caller must be followed, on the same path, by exactly one
+    `<that task>.add_done_callback(<handler>(<the started key>, <the started request>, finished task))`;
+    when the starter attaches the callback itself, a caller must not attach another one."""
+    handler = prog.func(f"{ACTOR}.{ctx.handler}")
+    proc = prog.func(f"{ACTOR}.{ctx.starter}")
+    hp, pp = handler.params[1:4], proc.params[1:3]
+    nested = {n.name: n for n in ast.walk(w.tree) if isinstance(n, ast.FunctionDef) and n is not w.tree}
+    for p in paths:
+        order = {id(e): i for i, e in enumerate(p.effects)}
+        cbs = _done_callbacks(p)
+        for st in p.calls(lambda c: _is_self_call(c, ctx.starter)):
+            a = _bound(st.node, pp)
+            slot = f"{PROC}[{a[pp[0]]}]" if a is not None and pp[0] in a else None
+            mine = [e for e in cbs if order[id(e)] > order[id(st)] and (
+                u(e.node.func.value) == u(st.node) or (slot is not None and u(e.node.func.value) == slot))]  # type: ignore[attr-defined]
+            if not ctx.deferred:
+                for e in mine:
+                    bad["cb_twice"].append((p, e.node))
+                continue
+            if len(mine) != 1:
+                bad["cb_site"].append((p, f"{len(mine)} completion callback(s) on the task returned by "
+                                       f"{u(st.node)[:80]}"))
+                continue
+            arg = _cb_arg(mine[0].node)
+            if a is None or set(a) != set(pp) or arg is None \
+                    or not _callback_ok(arg, nested, ctx.handler, hp, a[pp[0]], a[pp[1]], fn.qual):
+                bad["cbarg_site"].append((p, mine[0].node))
+
+
+def report_attach(run: Run, fn: FuncInfo, ctx: "Ctx", bad: dict[str, list[tuple[Path, Any]]]) -> None:
+    if ctx.deferred:
+        _agg(run, "C14.REG", fn, "every started task gets its completion callback at the call site",
+             "the starter hands the created task back without a completion callback and this caller does not "
+             "attach exactly one to it on every path: the in-flight marker is never cleared and a pending "
+             "request never started (or the completion is handled twice)", bad["cb_site"])
+        _agg(run, "C14.REG", fn, "callback at the call site = _handle_task_completion(started key, started request, "
+             "finished task)",
+             "the completion callback attached to the returned task is not the handler for the (group, request) "
+             "that was just started: the completion is booked against another group / request", bad["cbarg_site"])
+    else:
+        _agg(run, "C14.REG", fn, "no second completion callback at the call site",
+             "a second completion callback is attached to a task the starter already gave one: the completion "
+             "is handled twice (the follow-up request's in-flight marker is cleared while it runs)",
+             bad["cb_twice"])
+
+
 class Ctx:
     def __init__(self, prog: Program) -> None:
+        self.deferred = False               # the starter returns the task, its callers attach the callback
         self.unfollowed: set[str] = set()
         self.read_in: set[str] = set()      # helpers spliced / followed into the anchored functions
         self.starter, self.handler = bind_roles(prog)
@@ -233,38 +337,9 @@ def check_reg(run: Run, prog: Program, ctx: Ctx) -> None:  # noqa: C901
     nested = {n.name: n for n in ast.walk(w.tree) if isinstance(n, ast.FunctionDef) and n is not w.tree}
     slot = f"{PROC}[{key}]"
 
-    def callback_ok(cb: ast.AST) -> bool:
-        """The callable calls _handle_task_completion(key, request, <the finished task>)."""
-        if isinstance(cb, ast.Lambda):
-            la = cb.args
-            if len(la.args) + len(la.posonlyargs) != 1 or la.vararg or la.kwarg or la.kwonlyargs:
-                return False
-            tpar = (la.posonlyargs + la.args)[0].arg
-            body: ast.AST | None = cb.body
-        elif isinstance(cb, ast.Name) and cb.id in nested:
-            d = nested[cb.id]
-            da = d.args
-            stmts = [s for s in d.body if not (isinstance(s, ast.Expr) and isinstance(s.value, ast.Constant))]
-            if len(da.args) + len(da.posonlyargs) != 1 or da.vararg or da.kwarg or da.kwonlyargs or len(stmts) != 1 \
-                    or not isinstance(stmts[0], (ast.Expr, ast.Return)) or d.decorator_list:
-                return False
-            tpar = (da.posonlyargs + da.args)[0].arg
-            body = stmts[0].value
-        elif isinstance(cb, ast.Call) and u(cb.func).split(".")[-1] == "partial" and cb.args \
-                and u(cb.args[0]) == f"self.{ctx.handler}":
-            a = _bound(ast.Call(func=cb.args[0], args=cb.args[1:], keywords=cb.keywords), hp)
-            return a == {hp[0]: key, hp[1]: req}
-        elif isinstance(cb, (ast.Name, ast.Call)):
-            # a callable built somewhere the walker could not read (a multi-statement closure, an
-            # unknown factory): nothing can be said about it
-            raise AnalysisError(f"{fn.qual}: the done-callback `{u(cb)[:80]}` is not a callable the walker can read")
-        else:
-            return False
-        if body is None or not _is_self_call(body, ctx.handler):
-            return False
-        return _bound(body, hp) == {hp[0]: key, hp[1]: req, hp[2]: tpar}
-
     bad: dict[str, list[tuple[Path, Any]]] = {k: [] for k in ("create", "coro", "cb", "cbarg", "reg", "writes")}
+    handed_back: list[bool] = []
+    pending_cb: list[tuple[Path, Any]] = []
     for p in w.paths:
         creates = p.calls(lambda c: u(c.func).split(".")[-1] == "create_task")
         if len(creates) != 1 or p.exit == "raise":
@@ -288,8 +363,14 @@ def check_reg(run: Run, prog: Program, ctx: Ctx) -> None:  # noqa: C901
             e for e in _calls_on(p, PROC) if e.node.func.attr not in ("get", "keys", "add_done_callback")]  # type: ignore[attr-defined]
         for e in odd:
             bad["writes"].append((p, e.orig if e.kind != "call" and e.orig is not None else e.node))
-        # the completion callback, attached to this very task
-        cbs = p.calls(lambda c: isinstance(c.func, ast.Attribute) and c.func.attr == "add_done_callback")
+        # the completion callback, attached to this very task (or left to the callers: the task is handed back)
+        cbs = _done_callbacks(p)
+        returned = p.exit == "return" and p.ret is not None and (
+            u(p.ret) == task or (u(p.ret) == slot and bool(registered)))
+        handed_back.append(returned and not cbs)
+        if returned and not cbs:
+            pending_cb.append((p, "task.add_done_callback(... _handle_task_completion(req_id, request, t))"))
+            continue
 
         order = {id(e): i for i, e in enumerate(p.effects)}
 
@@ -301,16 +382,20 @@ def check_reg(run: Run, prog: Program, ctx: Ctx) -> None:  # noqa: C901
         if len(mine) != 1 or len(cbs) != 1:
             bad["cb"].append((p, "task.add_done_callback(... _handle_task_completion(req_id, request, t))"))
             continue
-        cbcall = mine[0].node
-        assert isinstance(cbcall, ast.Call)
-        arg = positional(cbcall, ["fn"]).get("fn") or positional(cbcall, ["callback"]).get("callback")
-        if arg is None or not callback_ok(arg) or len(cbcall.args) + len(cbcall.keywords) != 1:
+        arg = _cb_arg(mine[0].node)
+        if arg is None or not _callback_ok(arg, nested, ctx.handler, hp, key, req, fn.qual):
             bad["cbarg"].append((p, "task.add_done_callback(... _handle_task_completion(req_id, request, t))"))
+    # every path hands the bare task back: attaching the callback is the callers' obligation (check_attach);
+    # some do and some do not: the ones that do not are paths without a callback
+    ctx.deferred = bool(handed_back) and all(handed_back)
+    if not ctx.deferred:
+        bad["cb"].extend(pending_cb)
     _agg(run, "C14.REG", fn, "create the task", "a path through _process_request does not create exactly one "
          "distribution task", bad["create"])
     _agg(run, "C14.REG", fn, "the task distributes exactly the given request",
          "the task does not distribute exactly the given request", bad["coro"])
-    _agg(run, "C14.REG", fn, "attach the callback", "the distribution task has no completion callback on some path: a "
+    _agg(run, "C14.REG", fn, "attach the callback (or hand the bare task back on every path)",
+         "the distribution task has no completion callback on some path: a "
          "pending request would never be started", bad["cb"])
     _agg(run, "C14.REG", fn, "callback = _handle_task_completion(key, request, finished task)",
          "the distribution task has no completion callback for its own (group, request): a "
@@ -353,7 +438,9 @@ def check_run(run: Run, prog: Program, ctx: Ctx) -> None:  # noqa: C901
 
     bad: dict[str, list[tuple[Path, Any]]] = {k: [] for k in (
         "leave", "key", "guard", "undecided", "touch", "busy_start", "busy_park", "free_start", "free_park",
-        "args", "overwrite", "pendcall", "await")}
+        "args", "overwrite", "pendcall", "await", "cb_site", "cbarg_site", "cb_twice")}
+    look = ("get", "keys") + (("add_done_callback",) if ctx.deferred else ())   # callers attach to the registered task
+    check_attach(fn, w, [p for p, _st in body], ctx, prog, bad)
     n_busy = n_free = 0
     for p, st in body:
         if st not in ("next", "continue"):
@@ -379,7 +466,8 @@ def check_run(run: Run, prog: Program, ctx: Ctx) -> None:  # noqa: C901
         for e in _dels(p, "_processing_tasks"):
             bad["touch"].append((p, e.orig or e.node))
         for e in _calls_on(p, PROC):
-            if not (e.node.func.attr in ("get", "keys") and u(e.node.func.value) == PROC):  # type: ignore[attr-defined]
+            if not ((e.node.func.attr in ("get", "keys") and u(e.node.func.value) == PROC)  # type: ignore[attr-defined]
+                    or (e.node.func.attr in look and u(e.node.func.value).startswith(PROC + "["))):  # type: ignore[attr-defined]
                 bad["touch"].append((p, e.node))
         # ---- bookkeeping of this path
         starts = p.calls(lambda c: _is_self_call(c, ctx.starter))
@@ -439,6 +527,7 @@ def check_run(run: Run, prog: Program, ctx: Ctx) -> None:  # noqa: C901
          "with no task in flight the request is (also) parked as pending", bad["free_park"])
     _agg(run, "C14.KEY", fn, "self._process_request(key, request)",
          "the request is started under a different key / with a different request", bad["args"])
+    report_attach(run, fn, ctx, bad)
     _agg(run, "C14.LATEST", fn, "pending slot: plain overwrite with the incoming request",
          "the pending slot is not overwritten with the incoming request", bad["overwrite"])
     _agg(run, "C14.LATEST", fn, "pending map otherwise only read (get)",
@@ -472,7 +561,10 @@ def check_handler(run: Run, prog: Program, ctx: Ctx) -> None:  # noqa: C901
               "the completion handler is not synchronous", node=fn.node, file=fn.file)
     slot = f"{PROC}[{key}]"
     bad: dict[str, list[tuple[Path, Any]]] = {k: [] for k in (
-        "raise", "decide", "odd", "escape", "start", "nostart", "clear_pending", "clear", "keyed", "write")}
+        "raise", "decide", "odd", "escape", "start", "nostart", "clear_pending", "clear", "keyed", "write",
+        "cb_site", "cbarg_site", "cb_twice")}
+    look = ("get", "keys") + (("add_done_callback",) if ctx.deferred else ())
+    check_attach(fn, w, [p for p in w.paths if p.exit != "raise"], ctx, prog, bad)
     only_exception = False
     n_yes = n_no = 0
     for p in w.paths:
@@ -506,7 +598,8 @@ def check_handler(run: Run, prog: Program, ctx: Ctx) -> None:  # noqa: C901
         for t, _v, e in _writes(p, "_processing_tasks"):
             bad["write"].append((p, e.orig or t))
         for e in _calls_on(p, PROC):
-            if e not in pops and not (e.node.func.attr in ("get", "keys") and u(e.node.func.value) == PROC):  # type: ignore[attr-defined]
+            if e not in pops and not (e.node.func.attr in ("get", "keys") and u(e.node.func.value) == PROC) \
+                    and not (e.node.func.attr in look and u(e.node.func.value).startswith(PROC + "[")):  # type: ignore[attr-defined]
                 bad["write"].append((p, e.node))
         if pending is True:
             n_yes += 1
@@ -558,9 +651,86 @@ def check_handler(run: Run, prog: Program, ctx: Ctx) -> None:  # noqa: C901
     _agg(run, "C14.NEXT", fn, "the handler only clears the in-flight map",
          "the completion handler writes the in-flight map itself (registration belongs to _process_request)",
          bad["write"])
+    report_attach(run, fn, ctx, bad)
     if only_exception:
         run.note("a *cancelled* distribution task makes task.result() raise CancelledError, which "
                  "`except Exception` does not catch: outside the property's quantifier (informational)")
+
+
+# --------------------------------------------------------------------------------------------- BIND
+def completion_closures(prog: Program, handler: str) -> list[tuple[FuncInfo, ast.AST, list[ast.AST] | None]]:
+    """(function, closure, the handler call's arguments) for every lambda / nested def in the actor's
+    methods and the module's functions that calls self.<handler>(...): the callables a finished
+    distribution task can be answered with, however they are handed to add_done_callback."""
+    cls = prog.cls(ACTOR)
+    out: list[tuple[FuncInfo, ast.AST, list[ast.AST] | None]] = []
+    for m in list(cls.methods.values()) + list(cls.module.functions.values()):
+        for n in ast.walk(m.node):
+            if n is m.node or not isinstance(n, (ast.Lambda, ast.FunctionDef, ast.AsyncFunctionDef)):
+                continue
+            body = [n.body] if isinstance(n, ast.Lambda) else n.body
+            calls = [c for b in body for c in ast.walk(b) if isinstance(c, ast.Call)
+                     and isinstance(c.func, ast.Attribute) and c.func.attr == handler
+                     and isinstance(c.func.value, ast.Name)]
+            if not calls:
+                continue
+            # an enclosing def that merely contains the real closure is not itself the callback
+            inner = [x for x in ast.walk(n) if x is not n and isinstance(x, (ast.Lambda, ast.FunctionDef))
+                     and any(c in ast.walk(x) for c in calls)]
+            if inner:
+                continue
+            # a one-expression callable: only what flows into the handler call matters; otherwise everything it reads
+            args = [a for c in calls for a in list(c.args) + [k.value for k in c.keywords]] \
+                if isinstance(n, ast.Lambda) else None
+            out.append((m, n, args))
+    return out
+
+
+def check_bind(run: Run, prog: Program, ctx: Ctx) -> None:
+    """A completion is booked for the (group, request) the callback was *created* for: what the callback
+    passes to the handler is fixed when it is created -- default arguments, functools.partial, or free
+    variables that are never bound again afterwards (parameters / single-assignment locals of the function
+    the callback is created in).  A closure over a variable that is re-bound before the task completes
+    (the loop variable of the request loop, the key computed per iteration, a local reused for the next
+    request) sees the *latest* value: the completion of one request is then handled as if the most recently
+    received one had finished."""
+    closures = completion_closures(prog, ctx.handler)
+    for m, c, args in closures:
+        names = closure_reads(c, args)
+        hits = rebound_after(m.node, c, names)
+        what = u(c) if isinstance(c, ast.Lambda) else f"def {c.name}(...)"  # type: ignore[attr-defined]
+        if not hits:
+            run.ok("C14.BIND", f"{m.qual} :: `{what[:90]}` reads only variables that are not bound again after its creation")
+            continue
+        by_var: dict[str, list[str]] = {}
+        for name, owner, site in hits:
+            ln = getattr(site, "lineno", 0)
+            kind = "loop variable" if any(
+                isinstance(x, (ast.For, ast.AsyncFor)) and any(t is site for t in ast.walk(x.target))
+                for x in ast.walk(owner)) else "re-bound"
+            by_var.setdefault(name, []).append(f"{kind} at line {ln}")
+        detail = "; ".join(f"`{k}` ({', '.join(sorted(set(v)))})" for k, v in sorted(by_var.items()))
+        run.violation(
+            "C14.BIND", m.qual, what,
+            f"the completion callback closes over {detail} of {m.name}: the variable is bound again after the "
+            "callback is created and before the task completes, and a closure sees the latest value (late "
+            "binding) -- the completion of this request is handled for the group / request received most "
+            "recently: another group's in-flight marker is cleared while its distribution still runs (two "
+            "requests of that group then run concurrently) and this group stays marked in flight, so its later "
+            "requests are parked and never applied.  Bind the arguments when the callback is created: default "
+            "arguments, functools.partial, or create it in a function whose parameters it closes over",
+            node=c, file=m.file)
+    run.check(bool(closures) or _partial_only(prog, ctx), "C14.BIND", f"{ACTOR}.{ctx.starter}",
+              "a completion callback exists", "no callable that calls the completion handler was found",
+              node=prog.func(f"{ACTOR}.{ctx.starter}").node, file=prog.func(f"{ACTOR}.{ctx.starter}").file,
+              instance=f"{ACTOR} :: the completion callback is a closure or a partial of the handler")
+
+
+def _partial_only(prog: Program, ctx: Ctx) -> bool:
+    """The handler is handed out as a bound method / through partial (arguments evaluated at creation)."""
+    cls = prog.cls(ACTOR)
+    return any(isinstance(n, ast.Attribute) and n.attr == ctx.handler and isinstance(n.value, ast.Name)
+               and isinstance(n.ctx, ast.Load) for m in cls.methods.values() for n in ast.walk(m.node))
 
 
 # --------------------------------------------------------------------------------------------- ONLY
@@ -729,7 +899,72 @@ def structural_controls(prog: Program) -> list[tuple[str, str, str, str, str]]: 
             break
     cbs = [n for m, n in every if isinstance(n, ast.Expr) and isinstance(n.value, ast.Call)
            and isinstance(n.value.func, ast.Attribute) and n.value.func.attr == "add_done_callback"]
-    add("callback dropped", [(s, "pass") for s in cbs], "C14.REG")
+    # (the receiver stays: when the callers attach the callback, it is the start of the request)
+    add("callback dropped", [(s.value, seg(src, s.value.func.value)) for s in cbs], "C14.REG")  # type: ignore[attr-defined]
+    # ---- late binding of the completion callback
+    def stmt_of(fn_node: ast.AST, inner: ast.AST) -> ast.stmt | None:
+        """The innermost statement of a body list that contains `inner`."""
+        best: ast.stmt | None = None
+        for n in ast.walk(fn_node):
+            for field in ("body", "orelse", "finalbody"):
+                suite = getattr(n, field, None)
+                if isinstance(suite, list):
+                    for st in suite:
+                        if isinstance(st, ast.stmt) and any(x is inner for x in ast.walk(st)):
+                            best = st       # ast.walk is breadth-first: deeper suites come later
+        return best
+
+    rebinds: list[tuple[ast.AST, str]] = []
+    for m, c, args in completion_closures(prog, handler):
+        if m.cls is not cls:
+            continue
+        reads = sorted(closure_reads(c, args[:1] if args else None) - {"self", "cls"})
+        st = stmt_of(m.node, c)
+        if reads and st is not None and not isinstance(st, (ast.Return, ast.Raise)):
+            rebinds.append((st, f"{seg(src, st)}\n{ind(st)}{reads[0]} = frozenset()"))
+    add("key re-bound after the completion callback was created", rebinds, "C14.BIND")
+    # the seed's shape: the starter hands the task back, the callers attach a lambda over their own locals --
+    # in the request loop those are re-bound with every request
+    s_fn = cls.methods.get(starter)
+    h_fn = cls.methods.get(handler)
+    if s_fn is not None and h_fn is not None and len(s_fn.params) >= 3 and s_fn.node.body \
+            and not isinstance(s_fn.node.body[-1], (ast.Return, ast.Raise)):
+        kp, rp = s_fn.params[1:3]
+        own_cb = [n for n in s_fn.node.body if isinstance(n, ast.Expr) and isinstance(n.value, ast.Call)
+                  and isinstance(n.value.func, ast.Attribute) and n.value.func.attr == "add_done_callback"
+                  and isinstance(n.value.func.value, ast.Name) and len(n.value.args) == 1
+                  and isinstance(n.value.args[0], ast.Lambda) and isinstance(n.value.args[0].body, ast.Call)
+                  and _is_self_call(n.value.args[0].body, handler) and not n.value.args[0].body.keywords
+                  and [u(a) for a in n.value.args[0].body.args[:2]] == [kp, rp]]
+        sites = [(m, n) for m, n in every if m.name != starter and isinstance(n, ast.Expr)
+                 and _is_self_call(n.value, starter) and len(n.value.args) == 2 and not n.value.keywords]  # type: ignore[attr-defined]
+
+        def in_loop_over(m: FuncInfo, st: ast.stmt) -> bool:
+            """Both arguments are locals the enclosing loop of the same function binds anew."""
+            a = st.value.args  # type: ignore[attr-defined]
+            if not all(isinstance(x, ast.Name) for x in a):
+                return False
+            for lp in walk_no_nested(m.node):
+                if isinstance(lp, (ast.For, ast.AsyncFor, ast.While)) and any(x is st for b in lp.body for x in ast.walk(b)):
+                    stored = {x.id for x in ast.walk(lp) if isinstance(x, ast.Name) and isinstance(x.ctx, ast.Store)}
+                    if any(x.id in stored for x in a):
+                        return True
+            return False
+
+        if len(own_cb) == 1 and sites and any(in_loop_over(m, n) for m, n in sites):
+            task_name = u(own_cb[0].value.func.value)  # type: ignore[attr-defined]
+            last = s_fn.node.body[-1]
+            edits: list[tuple[ast.AST, str]] = [(own_cb[0], "pass")] if own_cb[0] is not last else []
+            edits.append((last, (f"{seg(src, last)}" if own_cb[0] is not last else "pass") + f"\n{ind(last)}return {task_name}"))
+            for m, n in sites:
+                a0, a1 = (seg(src, x) for x in n.value.args)  # type: ignore[attr-defined]
+                pre = ""
+                if not all(isinstance(x, ast.Name) for x in n.value.args):  # type: ignore[attr-defined]
+                    pre = f"c14_key = {a0}\n{ind(n)}c14_request = {a1}\n{ind(n)}"
+                    a0, a1 = "c14_key", "c14_request"
+                edits.append((n, f"{pre}self.{starter}({a0}, {a1}).add_done_callback(\n{ind(n)}    "
+                                 f"lambda c14_t: self.{handler}({a0}, {a1}, c14_t))"))
+            add("callback attached by the callers, closing over the request loop's variables", edits, "C14.BIND")
     pend_w = [n for m, n in every if isinstance(n, ast.Assign) and len(n.targets) == 1
               and sub_of(n.targets[0], "_pending_requests")]
     add("older pending request kept",
@@ -771,6 +1006,7 @@ def run_rules(run: Run, prog: Program) -> None:
     check_reg(run, prog, ctx)
     check_run(run, prog, ctx)
     check_handler(run, prog, ctx)
+    check_bind(run, prog, ctx)
     check_init(run, prog, ctx)
     check_only(run, prog, ctx)
 
@@ -781,7 +1017,11 @@ def check(run: Run, prog: Program, tier: str) -> str:
              "helpers read into these functions count as part of them); the constructor creates both "
              "dicts empty and binds the receiver and the component manager")
     run.rule("C14.REG", "_process_request is synchronous and on every path creates the task, attaches "
-             "the completion callback for (group, request) and registers the task under the group key")
+             "the completion callback for (group, request) and registers the task under the group key; when it "
+             "hands the bare task back instead, every caller attaches exactly that callback to the returned task")
+    run.rule("C14.BIND", "what a completion callback passes to the handler (group key, request) is fixed when the "
+             "callback is created: default arguments, functools.partial, or free variables that are not bound again "
+             "after its creation -- never a closure over the request loop's variables (late binding)")
     run.rule("C14.ATOM", "the in-flight guard is exactly `key in _processing_tasks`; no await between "
              "receiving a request, the guard and the bookkeeping; in flight -> never started, free -> started "
              "exactly once")
@@ -793,6 +1033,7 @@ def check(run: Run, prog: Program, tier: str) -> str:
     run_rules(run, prog)
     run.floor("C14.ONLY", 9)
     run.floor("C14.REG", 6)
+    run.floor("C14.BIND", 1)
     run.floor("C14.ATOM", 4)
     run.floor("C14.LATEST", 3)
     run.floor("C14.NEXT", 6)
